@@ -119,6 +119,16 @@ class Run:
         self.known = [k for k in json.load(open(VERIF / "known_findings.json"))["findings"]
                       if k["property"] == pid]
         self.repo_state0 = self.repo_state()
+        # arm coverage of the anchored functions of the implementation (tools/impl/_cover.py)
+        self.armcov = {}
+        self.cover_spec = None
+        try:
+            spec = json.load(open(VERIF / "tools" / "armcov_spec.json")).get(pid)
+            if spec and os.environ.get("VERIF_ARMCOV", "1") != "0":
+                self.cover_spec = self.work / "armcov_spec.json"
+                self.cover_spec.write_text(json.dumps(spec))
+        except Exception:  # noqa
+            self.cover_spec = None
 
     @staticmethod
     def repo_state():
@@ -320,6 +330,56 @@ class Run:
         return [x.strip() for x in body.split(";")]
 
     # ----------------------------------------------------------------- impl
+    def _runner_cmd(self, script, inp, outp):
+        """command line of a runner; with arm coverage it goes through tools/impl/_cover.py (same behaviour)"""
+        path = str(VERIF / "tools" / "impl" / ("%s.py" % script))
+        if self.cover_spec is None:
+            return [PY, path, str(inp), str(outp)], None
+        cov = Path(str(outp) + ".cov")
+        return [PY, str(VERIF / "tools" / "impl" / "_cover.py"), str(cov), path, str(inp), str(outp)], cov
+
+    def _merge_cov(self, cov):
+        if cov is None:
+            return
+        import glob
+        for f in glob.glob(str(cov) + "*"):        # the runner's own file and those of its forked children
+            try:
+                d = json.loads(Path(f).read_text())
+                Path(f).unlink()
+            except Exception:  # noqa
+                continue
+            for rel, fns in d.items():
+                for q, v in fns.items():
+                    e = self.armcov.setdefault(rel, {}).setdefault(q, {"lines": set(), "hit": set()})
+                    e["lines"] |= set(v["lines"])
+                    e["hit"] |= set(v["hit"])
+
+    def armcov_summary(self):
+        """{"functions", "lines", "hit", "ratio", "per_function": {...}, "missed": [{"where","src"}]}"""
+        if not self.armcov:
+            return None
+        per, missed, tl, th = {}, [], 0, 0
+        for rel in sorted(self.armcov):
+            try:
+                src = (REPO / rel).read_text().splitlines()
+            except Exception:  # noqa
+                src = []
+            for q in sorted(self.armcov[rel]):
+                e = self.armcov[rel][q]
+                lines, hit = e["lines"], e["hit"] & e["lines"]
+                tl += len(lines); th += len(hit)
+                per["%s::%s" % (rel, q)] = "%d/%d" % (len(hit), len(lines))
+                if hit:        # a function never entered is listed once, not line by line
+                    for ln in sorted(lines - hit):
+                        missed.append({"where": "%s:%d (%s)" % (rel, ln, q),
+                                       "src": src[ln - 1].strip()[:110] if 0 < ln <= len(src) else ""})
+        never = sorted(k for k, v in per.items() if v.startswith("0/"))
+        return {"functions": len(per), "functions_never_entered": never, "lines": tl, "hit": th,
+                "ratio": round(th / tl, 3) if tl else None, "per_function": per,
+                "missed_lines_of_entered_functions": missed[:400],
+                "meaning": "source lines of the property's anchored functions executed by the runner processes of this "
+                           "run (sys.monitoring); an arm that was not reached is not covered by the correspondence"}
+
     def impl(self, script, payload, timeout=1800, env=None, hashseed="0"):
         """Run tools/impl/<script> with the implementation from /repo's working tree."""
         e = {"PYTHONPATH": "%s:%s" % (REPO, VERIF / "tools" / "impl"), "PYTHONHASHSEED": str(hashseed),
@@ -329,8 +389,11 @@ class Run:
         inp = self.work / ("impl_in_%s_%d.json" % (script, random.getrandbits(32)))
         outp = Path(str(inp).replace("impl_in_", "impl_out_"))
         inp.write_text(json.dumps(payload))
-        rc, out = sh([PY, str(VERIF / "tools" / "impl" / ("%s.py" % script)), str(inp), str(outp)],
-                     timeout=timeout, env=e, cwd=str(self.work))
+        cmd, cov = self._runner_cmd(script, inp, outp)
+        if cov is not None:
+            e["VERIF_COVER_SPEC"] = str(self.cover_spec)
+        rc, out = sh(cmd, timeout=timeout, env=e, cwd=str(self.work))
+        self._merge_cov(cov)
         if rc != 0 or not outp.exists():
             return None, out
         return json.loads(outp.read_text()), out
@@ -349,13 +412,16 @@ class Run:
             if outp.exists():
                 outp.unlink()
             inp.write_text(json.dumps(payload))
-            p = subprocess.Popen(["timeout", str(timeout), PY, str(VERIF / "tools" / "impl" / ("%s.py" % script)),
-                                  str(inp), str(outp)], env=e, cwd=str(self.work),
+            cmd, cov = self._runner_cmd(script, inp, outp)
+            if cov is not None:
+                e["VERIF_COVER_SPEC"] = str(self.cover_spec)
+            p = subprocess.Popen(["timeout", str(timeout)] + cmd, env=e, cwd=str(self.work),
                                  stdout=subprocess.PIPE, stderr=subprocess.STDOUT, text=True)
-            procs.append((p, outp))
+            procs.append((p, outp, cov))
         res = []
-        for p, outp in procs:
+        for p, outp, cov in procs:
             out = p.communicate()[0]
+            self._merge_cov(cov)
             if p.returncode != 0 or not outp.exists():
                 res.append((None, out))
             else:
@@ -415,6 +481,9 @@ class Run:
         if getattr(self, "coqchk", None):
             cov["coqchk"] = self.coqchk
             tb.append("coqchk -o (independent checker) axioms: %s" % self.coqchk["axioms"])
+        ac = self.armcov_summary()
+        if ac is not None:
+            cov["implementation_arm_coverage"] = ac
         end_state = self.repo_state()
         cov["implementation_under_test"] = self.repo_state0
         if end_state != self.repo_state0:
@@ -430,6 +499,7 @@ class Run:
         if self.violations:
             print("%s: %d violation(s)" % (self.pid, len(self.violations)))
             return 1
-        print("%s: ok  (%d/%d obligations discharged, %s evaluations, %.0fs)" % (
-            self.pid, cov["discharged"], cov["obligations"], cov.get("evaluations", 0), time.time() - self.t0))
+        print("%s: ok  (%d/%d obligations discharged, %s evaluations, %.0fs%s)" % (
+            self.pid, cov["discharged"], cov["obligations"], cov.get("evaluations", 0), time.time() - self.t0,
+            "; anchored code lines reached %d/%d" % (ac["hit"], ac["lines"]) if ac else ""))
         return 0
